@@ -43,11 +43,11 @@ Definition PINGRESP : N := 13. Definition DISCONNECT : N := 14. Definition AUTH 
 
 (* var ValidProperties: property id -> packet types in which the server accepts it *)
 Definition valid_properties : list (N * list N) :=
-  [ (1,  [CONNECT; PUBLISH]);                  (* PropPayloadFormat *)
-    (2,  [CONNECT; PUBLISH]);                  (* PropMessageExpiry *)
-    (3,  [CONNECT; PUBLISH]);                  (* PropContentType *)
-    (8,  [CONNECT; PUBLISH]);                  (* PropResponseTopic *)
-    (9,  [CONNECT; PUBLISH]);                  (* PropCorrelationData *)
+  [ (1,  [PUBLISH]);                           (* PropPayloadFormat *)
+    (2,  [PUBLISH]);                           (* PropMessageExpiry *)
+    (3,  [PUBLISH]);                           (* PropContentType *)
+    (8,  [PUBLISH]);                           (* PropResponseTopic *)
+    (9,  [PUBLISH]);                           (* PropCorrelationData *)
     (11, [SUBSCRIBE]);                         (* PropSubscriptionIdentifier *)
     (17, [CONNECT; CONNACK; DISCONNECT]);      (* PropSessionExpiryInterval *)
     (18, [CONNACK]);                           (* PropAssignedClientID *)
@@ -55,7 +55,7 @@ Definition valid_properties : list (N * list N) :=
     (21, [CONNECT; CONNACK; AUTH]);            (* PropAuthMethod *)
     (22, [CONNECT; CONNACK; AUTH]);            (* PropAuthData *)
     (23, [CONNECT]);                           (* PropRequestProblemInfo *)
-    (24, [CONNECT]);                           (* PropWillDelayInterval *)
+    (24, []);                                  (* PropWillDelayInterval: will properties only *)
     (25, [CONNECT]);                           (* PropRequestResponseInfo *)
     (26, [CONNACK]);                           (* PropResponseInfo *)
     (28, [CONNACK; DISCONNECT]);               (* PropServerReference *)
@@ -169,10 +169,14 @@ Fixpoint props_loop (fuel : nat) (ptype : N) (p : props) (b : list N) : res prop
 (* Properties.Unpack(bufr, packetType) on a fresh &Properties{} *)
 Definition props_unpack (ptype : N) (b : list N) : res (props * list N) :=
   match b with
-  | [] => Ok (props_empty, [])                               (* bufr.Len() == 0: Property Length omitted *)
+  | [] =>                                                    (* bufr.Len() == 0: Property Length omitted *)
+      if (ptype =? PUBACK) || (ptype =? PUBREC) || (ptype =? PUBREL) || (ptype =? PUBCOMP)
+         || (ptype =? DISCONNECT) || (ptype =? AUTH)
+      then Ok (props_empty, []) else Err MALFORMED
   | _ =>
       do '(length, r) <- read_varint b;
       if length =? 0 then Ok (props_empty, r)
+      else if shorter r length then Err MALFORMED            (* length > bufr.Len() *)
       else
         let '(pb, r') := buf_next length r in                (* bufr.Next(length) clamps *)
         do p <- props_loop (S (List.length pb)) ptype props_empty pb;
@@ -207,6 +211,7 @@ Fixpoint will_props_loop (fuel : nat) (p : props) (b : list N) : res props :=
 Definition will_props_unpack (b : list N) : res (props * list N) :=
   do '(length, r) <- read_varint b;
   if length =? 0 then Ok (props_empty, r)
+  else if shorter r length then Err MALFORMED
   else
     let '(pb, r') := buf_next length r in
     do p <- will_props_loop (S (List.length pb)) props_empty pb;
